@@ -211,6 +211,14 @@ Theorem C09_config_meets_oracle : forall eps : list (list tok * list tok),
 Proof. exact config_meets_oracle. Qed.
 Print Assumptions C09_config_meets_oracle.
 
+(* requests with a forwarded client query: the oracle only demands that the substituted
+   url_pattern (placeholders in its path part or in its query part alike) is all there, followed
+   by the forwarded query; the model's exact answer satisfies it *)
+Theorem C09_routeq_model_meets_oracle : forall a segs be vals,
+  wf_route segs be vals = true -> spec_routeq_b segs be vals (serve a segs be vals) = true.
+Proof. exact routeq_meets_oracle. Qed.
+Print Assumptions C09_routeq_model_meets_oracle.
+
 (* oracle <-> model, oracle -> Prop *)
 Theorem C09_model_meets_oracle : forall a segs be vals,
   wf_route segs be vals = true -> spec_route_b segs be vals (serve a segs be vals) = true.
@@ -276,3 +284,8 @@ Proof.
   split; [right; right; exists "sub"; split; [reflexivity|discriminate]|].
   right; left; exists "12", "id"; repeat split; discriminate.
 Qed.
+Example C09_ex_placeholder_in_query_part :
+  serve Gin [Lit "shop"; Ph "category"] [Lit "/search?category="; Ph "category"] ["books"] = OPath "/search?category=books" /\
+  extends_b "/search?category=books" "/search?category=books&category=admin&q=go" = true /\
+  extends_b "/search?category=books" "/search?category=admin&q=go" = false.
+Proof. vm_compute. auto. Qed.
